@@ -144,7 +144,19 @@ def check_apply(run, fx, ev):
                             if "is_exact" in cond:
                                 okp &= (choice == exact)
                             elif "compare_remainder" in cond:
-                                okp &= (choice == "Some(%s)" % cmp)
+                                # the ordering may be decided in one step (`match cmp { Some(Less) => .. }`) or in two
+                                # (`let Some(o) = cmp else {..}; match o { Less => .. }`)
+                                if choice in ("Some(%s)" % cmp, cmp, "Ordering::" + cmp):
+                                    pass
+                                elif choice is True and (cond.startswith("let-else") or "is_some" in cond):
+                                    pass
+                                elif choice is False and "is_none" in cond:
+                                    pass
+                                elif choice in (True, False, "None") or str(choice).replace("Some(", "").rstrip(")").replace("Ordering::", "") in ("Less", "Greater", "Equal"):
+                                    okp = False
+                                else:
+                                    okp = False
+                                    foreign = cond
                             elif "is_even_cardinal" in cond:
                                 okp &= (choice == even)
                             else:
